@@ -134,6 +134,38 @@ class _Descr:
         return self.f(inst)
 
 
+class _SubCachedProperty(functools.cached_property):
+    """a subclass of functools.cached_property (typing shims, traced / documented cached properties)"""
+    extra = "sub"
+
+
+class _SubProperty(property):
+    """a subclass of property"""
+    extra = "sub"
+
+
+class _SubClassMethod(classmethod):
+    extra = "sub"
+
+
+class _SubStaticMethod(staticmethod):
+    extra = "sub"
+
+
+WRAPPERS = {
+    ("cprop", False): functools.cached_property, ("cprop", True): _SubCachedProperty,
+    ("prop", False): property, ("prop", True): _SubProperty,
+    ("cm", False): classmethod, ("cm", True): _SubClassMethod,
+    ("sm", False): staticmethod, ("sm", True): _SubStaticMethod,
+}
+WRAPPER_SRC = {
+    ("cprop", False): "functools.cached_property", ("cprop", True): "_SubCachedProperty",
+    ("prop", False): "property", ("prop", True): "_SubProperty",
+    ("cm", False): "classmethod", ("cm", True): "_SubClassMethod",
+    ("sm", False): "staticmethod", ("sm", True): "_SubStaticMethod",
+}
+
+
 def _wrap(f):
     @functools.wraps(f)
     def wrapper(*a, **k):
@@ -162,7 +194,8 @@ class Meta(type):
         cls.meta_mark = META_MARK        # a metaclass hook that annotates every class it creates
 
 
-GLOBALS = {"_REC": _rec, "_CP": _cp, "attr": attr, "functools": functools, "_Descr": _Descr, "_wrap": _wrap,
+GLOBALS = {"_SubCachedProperty": _SubCachedProperty, "_SubProperty": _SubProperty,
+           "_SubClassMethod": _SubClassMethod, "_SubStaticMethod": _SubStaticMethod, "_REC": _rec, "_CP": _cp, "attr": attr, "functools": functools, "_Descr": _Descr, "_wrap": _wrap,
            "Meta": Meta, "abc": abc, "__name__": MODNAME, "__builtins__": __builtins__}
 
 # ------------------------------------------------------------------------------------------ function source
@@ -486,7 +519,7 @@ def build(hs, decorate=True):
                         fs = spec[r]
                         src += fn_source(f"_{r}", r, f"{key}.{r}", fs.get("use") if fs["uses"] else None, 0)
                 args = ", ".join(f"_{r}" if spec.get(r) else "None" for r in ("fget", "fset", "fdel"))
-                src.append(f"    {unmangled(name, key)} = property({args})")
+                src.append(f"    {unmangled(name, key)} = {WRAPPER_SRC[('prop', bool(spec.get('sub')))]}({args})")
                 for r in ("fget", "fset", "fdel"):
                     if spec.get(r):
                         src.append(f"    del _{r}")
@@ -496,12 +529,13 @@ def build(hs, decorate=True):
             use = fs.get("use") if fs["uses"] else None
             keysrc = unmangled(name, key)
             defname = func_name(hs, key, spec, natural=True)
+            sub = bool(spec.get("sub"))
             if k == "cm" or role == "isub":
-                wrapper = "classmethod"
+                wrapper = WRAPPER_SRC[("cm", sub)]
             elif k == "sm":
-                wrapper = "staticmethod"
+                wrapper = WRAPPER_SRC[("sm", sub)]
             elif k == "cprop":
-                wrapper = "functools.cached_property"
+                wrapper = WRAPPER_SRC[("cprop", sub)]
             elif k == "opaque" and spec.get("opq") == "wraps":
                 wrapper = "_wrap"
             elif k == "opaque":
@@ -547,16 +581,16 @@ def build(hs, decorate=True):
             elif k == "prop":
                 fns = [make_fn(func_name(hs, key, spec), r, f"{key}.{r}", spec[r], cells) if spec.get(r) else None
                        for r in ("fget", "fset", "fdel")]
-                ns[key] = property(*fns)
+                ns[key] = WRAPPERS[("prop", bool(spec.get("sub")))](*fns)
             else:
                 role = _role_of(key, spec) or k
                 f = make_fn(func_name(hs, key, spec), role if role in PARAMS else k, key, spec["f"], cells, cpname=key)
                 if k == "cm" or role == "isub":
-                    ns[key] = classmethod(f)
+                    ns[key] = WRAPPERS[("cm", bool(spec.get("sub")))](f)
                 elif k == "sm":
-                    ns[key] = staticmethod(f)
+                    ns[key] = WRAPPERS[("sm", bool(spec.get("sub")))](f)
                 elif k == "cprop":
-                    cp = functools.cached_property(f)
+                    cp = WRAPPERS[("cprop", bool(spec.get("sub")))](f)
                     ns[key] = cp
                 elif k == "opaque":
                     ns[key] = _wrap(f) if spec.get("opq") == "wraps" else _Descr(f)
